@@ -58,7 +58,7 @@ func main() {
 	flag.Parse()
 
 	if *enumSize {
-		fmt.Println(enumCount())
+		fmt.Println(enumPairs(), enumCount())
 		return
 	}
 	if *replay != "" {
